@@ -150,7 +150,10 @@ def run_c17(tier):
 
 
 def run_c09(tier):
-    return A('C09', ['gabs_new', 'affine_new', 'consts'], tier) + kani.decide('C09', sel(k_dec_specs(), ['k_dec_']), tier, timeout_s=1500, pool=6)
+    # the subgroup test computes (r-1)P + P with the generic scalar multiplication and addition: its correctness on
+    # EVERY twist point (also points of small order, where accumulator and base coincide or are opposite) is the
+    # group law (C04 obligations) and the loop skeleton (C05), re-decided here
+    return A('C09', ['gabs_new', 'affine_new', 'consts', 'gabs_law'], tier) + skel('C09', tier, ('g2',)) + kani.decide('C09', sel(k_dec_specs(), ['k_dec_']), tier, timeout_s=1500, pool=6)
 
 
 def Ld(pid, names, tier):
